@@ -6,12 +6,25 @@ CLUSTERS = {
     "url": {"extract": "ExtractUrl.v", "ml": "model_url", "entry": "main_url"},
     "codec": {"extract": "ExtractCodec.v", "ml": "model_codec", "entry": "main_codec", "ops": ["norm"]},
     "expand": {"extract": "ExtractExpand.v", "ml": "model_expand", "entry": "main_expand"},
+    "valid": {"extract": "ExtractValid.v", "ml": "model_valid", "entry": "main_valid"},
 }
 
 COMMON_TB = [
     "extraction to OCaml with ExtrOcamlBasic + ExtrOcamlString only (no Extract Constant/Inductive of our own); OCaml 4.13.1; model/main_template.ml",
     "harness (Go): generators, model view of Go values, comparison of projected observables (bin/check: canon/compare)",
 ]
+
+def _codec_input(c):
+    return {"kind": c["kind"], "doc": c["j"]} if c.get("op") == "norm" else None
+
+
+def _c12_input(c):
+    return {"ref": c["a"], "base": c["b"]} if c.get("op") == "normalize_uri" else None
+
+
+def _c13_input(c):
+    return {"ref": c["a"]} if c.get("op") == "new_ref" else None
+
 
 PROPS = {
     "C20": {
@@ -59,6 +72,7 @@ PROPS = {
         "assumptions": ["the process working directory is absolute", "inputs outside the modelled URL grammar are reported as unsupported and counted"],
     },
     "C12": {
+        "case_to_input": _c12_input,
         "props": "theories/Props/C12.v", "cluster": "url", "gen": "url",
         "n": {"quick": 1500, "thorough": 20000}, "oracle_n": {"quick": 2000, "thorough": 50000},
         "rule": "correspondence: normalizeURI on every reference of <=2 (quick) / <=4 (thorough) directory segments over "
@@ -77,6 +91,7 @@ PROPS = {
         "assumptions": ["base locations are canonical (output of normalizeBase)"],
     },
     "C13": {
+        "case_to_input": _c13_input,
         "props": "theories/Props/C13.v", "cluster": "url", "gen": "url",
         "n": {"quick": 1500, "thorough": 20000}, "oracle_n": {"quick": 1500, "thorough": 30000},
         "rule": "correspondence: jsonreference.New/String/flags on every string of <=3 (quick) / <=4 (thorough) tokens from an "
@@ -93,6 +108,7 @@ PROPS = {
         "assumptions": ["authority is a host with at most one port (the property's quantifier)"],
     },
     "C01": {
+        "case_to_input": _codec_input,
         "props": "theories/Props/C01.v", "gens": [("tables", "Codec/Gen_Tables.v")], "cluster": "codec", "gen": "codec",
         "n": {"quick": 1200, "thorough": 12000}, "oracle_n": {"quick": 600, "thorough": 8000},
         "out_of_scope_shapes": {"response-ref-headers-dropped": "a response object carrying both $ref and other members is not a Swagger 2.0 object (response is oneOf response|jsonReference): outside the normal form",
@@ -113,6 +129,7 @@ PROPS = {
         "assumptions": ["numbers are compared as float64 values", "documents have no duplicate member names in the compared stream (duplicates are exercised for totality only)"],
     },
     "C06": {
+        "case_to_input": _codec_input,
         "props": "theories/Props/C06.v", "gens": [("tables", "Codec/Gen_Tables.v")], "cluster": "codec", "gen": "codec",
         "n": {"quick": 1200, "thorough": 12000}, "oracle_n": {"quick": 400, "thorough": 4000},
         "rule": "as C01 (member order compared, x-order values incl. ties, strings, non-integers); oracle: 20 encodings after re-decoding "
@@ -129,6 +146,7 @@ PROPS = {
         "assumptions": ["sort.Sort returns a sorted permutation when Less is a strict total order on the elements"],
     },
     "C07": {
+        "case_to_input": _codec_input,
         "props": "theories/Props/C07.v", "gens": [("tables", "Codec/Gen_Tables.v")], "cluster": "codec", "gen": "codec",
         "n": {"quick": 1200, "thorough": 12000}, "oracle_n": {"quick": 150, "thorough": 2000},
         "rule": "as C01, with the mutation stream (wrong types, nulls, empty containers, duplicates, case-folded names, extreme numbers, odd $ref "
@@ -141,5 +159,27 @@ PROPS = {
         "level_note": "Partial: idempotence for all inputs rests on the oracle and the differential run; panics/stack exhaustion are runtime behaviour the model cannot exhibit (oracle runs with a watchdog).",
         "technique": "Coq totality by structural recursion + evaluation witnesses + differential run + oracle",
         "assumptions": ["member names that case-fold onto a keyword are only checked for totality (the property's exception)"],
+    },
+    "C19": {
+        "props": "theories/Props/C19.v", "gens": [("tables", "Codec/Gen_Tables.v")], "cluster": "valid",
+        "gen": "valid", "gen_cmd": ["python3-vt", "{root}/tools/validgen.py", "--seed", "{seed}", "--n", "{n}", "--out", "{out}"],
+        "oracle_cmd": ["python3-vt", "{root}/tools/c19_oracle.py", "--seed", "{seed}", "--n", "{n}", "--harness", "{harness}", "--repo", "{repo}", "--out", "{out}"],
+        "replay_cmd": ["python3-vt", "{root}/tools/c19_oracle.py", "--replay", "{path}", "--harness", "{harness}", "--repo", "{repo}", "--out", "{out}"],
+        "n": {"quick": 60, "thorough": 600}, "oracle_n": {"quick": 500, "thorough": 5000},
+        "rule": "correspondence: the Coq predicate valid_kind against python jsonschema (Draft4Validator on the shipped schemas/v2/schema.json) on "
+                "generated valid Swagger documents, single-fault mutations of them and sub-kind cases (63 kinds); oracle: documents confirmed "
+                "valid by python (with well-founded local $refs) are decoded/encoded and fully expanded by the implementation and the outputs "
+                "validated by python; non-trivial = document has paths; distinct = distinct documents",
+        "trusted_base": COMMON_TB + ["python jsonschema 4.x (reference validator) and tools/validgen.py, tools/c19_oracle.py",
+                                     "Valid/Valid.v: hand transcription of the Swagger 2.0 meta-schema (format keywords not enforced)"],
+        "level_text": "Coq theorems (Props/C19.v) about the transcribed meta-schema: dropping any non-required member keeps every closed-object kind "
+                      "valid (what decode/encode does to optional empty members), with instances for info/tag/operation; the oneOf alternatives "
+                      "(response|reference, body|non-body parameter) are exclusive, so replacing a reference by a valid element keeps exactly one "
+                      "alternative; F15 as a refutation witness. The end-to-end statements (norm and expand preserve validity of every document) are "
+                      "NOT proved; they are checked on the implementation with the reference validator.",
+        "level_note": "Partial (DESIGN.md section 9): valid_swagger is a hand transcription validated against jsonschema on ~10^4 cases per run; the "
+                      "preservation theorems are per-kind lemmas, not the whole-document theorem.",
+        "technique": "Coq lemmas about a transcribed meta-schema + differential run against python jsonschema + validation of the implementation's outputs",
+        "assumptions": ["format keywords are not enforced (python's default)", "references are well-founded: local, to an existing element of the section that fits the position"],
     },
 }
